@@ -145,6 +145,7 @@ _OBJECT_METHODS = {re.Pattern: {"sub", "subn", "match", "search", "fullmatch", "
                    memoryview: {"tobytes", "cast", "tolist", "hex"},
                    list: {"append", "extend"},            # local work-lists of the evaluated block (e.g. `parts.append` handed on as a write sink)
                    bytearray: {"append", "extend"},
+                   dict: {"setdefault", "pop", "update", "clear", "popitem"},      # tables of the evaluated object (e.g. a reference table filled with setdefault)
                    collections.deque: {"append", "appendleft", "pop", "popleft", "extend", "clear", "copy", "index", "count"}}
 
 
